@@ -251,7 +251,7 @@ def zonal_laplacian_part(g, stats, FB, ops, seeds, tier):
     import sympy as sp
     import numpy as np
     from ..leangen import UNFOLD
-    degs = [0, 1, 2, 3] if tier == 'quick' else [0, 1, 2, 3, 4, 5, 6, 8]
+    degs = [0, 2, 3] if tier == 'quick' else [0, 1, 2, 3, 4, 5, 6, 8]
     K = len(degs)
 
     def scen_op(w):
@@ -413,6 +413,22 @@ def search(seed, tier):
     b = ops.spherical_laplacian(u, r, th, ph)
     if not torch.allclose(a, b, rtol=1e-6, atol=1e-6):
         found.append(dict(case='ZonalSphericalHarmonicsLaplacian vs spherical_laplacian'))
+    # single-function bases and single evaluation points (shapes must stay (n, k))
+    for basis, args, k in ((FB.LegendreBasis(max_degree=0), (x,), 1), (FB.ZonalSphericalHarmonics(degrees=[3]), (th, ph), 1),
+                           (FB.RealFourierSeries(max_degree=0), (ph,), 1), (FB.RealSphericalHarmonics(max_degree=0), (th, ph), 1)):
+        out = basis(*args)
+        if tuple(out.shape) != (n, k):
+            found.append(dict(case='basis output shape', basis=type(basis).__name__, shape=list(out.shape), want=[n, k]))
+        out1 = basis(*[a[:1] for a in args])
+        if tuple(out1.shape) != (1, k):
+            found.append(dict(case='basis output shape for a single point', basis=type(basis).__name__, shape=list(out1.shape)))
+    for degs1 in ([3], [0], [2, 5]):
+        net1 = FCNN(1, len(degs1), hidden_units=(6,))
+        a = FB.ZonalSphericalHarmonicsLaplacian(degrees=degs1)(net1(r), r, th, ph)
+        u = torch.sum(net1(r) * FB.ZonalSphericalHarmonics(degrees=degs1)(th, ph).reshape(n, len(degs1)), dim=1, keepdim=True)
+        b = ops.spherical_laplacian(u, r, th, ph)
+        if tuple(a.shape) != (n, 1) or not torch.allclose(a, b, rtol=1e-6, atol=1e-6):
+            found.append(dict(case='ZonalSphericalHarmonicsLaplacian vs spherical_laplacian', degrees=degs1))
     for md in (0, 3, 12):
         net = FCNN(1, 2 * md + 1, hidden_units=(6,))
         a = FB.FourierLaplacian(max_degree=md)(net(r), r, ph)
